@@ -115,7 +115,9 @@ N("C06", "self-match operands reordered", MD, "if hit.start == 0 and hit.value =
 
 # ------------------------------------------------------------------ C17
 B("C17", "boundary and -> or", KW, "        if (start == 0 or not data[start - 1 : start].isalnum()) and (\n            end == len(data) or not data[end : end + 1].isalnum()\n        ):", "        if (start == 0 or not data[start - 1 : start].isalnum()) or (\n            end == len(data) or not data[end : end + 1].isalnum()\n        ):", "R1-boundary")
-B("C17", "end == len(data) dropped", KW, "            end == len(data) or not data[end : end + 1].isalnum()\n", "            not data[end : end + 1].isalnum()\n", "R1-boundary")
+# behaviour-preserving: at end == len(data) the slice is empty and b"".isalnum() is False (was listed as breaking until the boundary rule learnt the empty-slice fact)
+N("C17", "end == len(data) dropped (the empty slice is not alphanumeric)", KW, "            end == len(data) or not data[end : end + 1].isalnum()\n", "            not data[end : end + 1].isalnum()\n")
+B("C17", "byte after the occurrence no longer tested", KW, "            end == len(data) or not data[end : end + 1].isalnum()\n", "            end <= len(data)\n", "R1-boundary")
 B("C17", "isalpha for isalnum", KW, "not data[start - 1 : start].isalnum()", "not data[start - 1 : start].isalpha()", "R1-boundary")
 B("C17", "left neighbour off by one", KW, "not data[start - 1 : start].isalnum()", "not data[start - 2 : start - 1].isalnum()", "R1-boundary")
 B("C17", "search on un-lowered data", KW, "for start in find_all(keyword.lower(), lower)", "for start in find_all(keyword.lower(), data)", "R2-lowering")
@@ -605,3 +607,17 @@ B("C07", "hoisted remaining depth does not decrement", MD, "        if node.chil
   also=[dict(file=MD, old="self.scan_node(child, depth_limit - 1)", new="self.scan_node(child, remaining)"), dict(file=MD, old="self.scan_node(hit, depth_limit - 1)", new="self.scan_node(hit, remaining)")])
 B("C03", "saved 'root' is taken after the first context push", MD, "                node = hit\n", "                node = hit\n                root = node\n", "R2-return-root",
   also=[dict(file=MD, old=RET_OLD, new="        return root\n"), dict(file=MD, old="        stack: list[Node] = []\n", new="        root = node\n        stack: list[Node] = []\n")])
+
+# ------------------------------------------------------------------ tolerances added for the invasive neutral round (p01-p20)
+PATHF = D + "path.py"
+WDP = '        obfuscation = "windows.dotpath" if len(path) < length else ""\n'
+N("C12", "windows dotpath label with swapped arms", PATHF, WDP, '        obfuscation = "" if len(path) >= length else "windows.dotpath"\n')
+N("C12", "windows dotpath label compared the other way round", PATHF, WDP, '        obfuscation = "windows.dotpath" if length > len(path) else ""\n')
+B("C12", "windows dotpath label also when the length is unchanged", PATHF, WDP, '        obfuscation = "windows.dotpath" if len(path) <= length else ""\n', "R4-labels")
+B("C12", "windows dotpath label compares with the normalised length itself", PATHF, "        length = len(path)\n        path = ntpath.normpath(path)\n", "        path = ntpath.normpath(path)\n        length = len(path)\n", "R4-labels")
+N("C12", "dropped segment removed with del", NET, "                dotless.pop()\n", "                del dotless[-1]\n")
+N("C12", "url.dotpath label with swapped arms and !=", NET, '    return b"/".join(dotless), "url.dotpath" if len(dotless) < len(segments) else ""', '    return b"/".join(dotless), "" if len(dotless) == len(segments) else "url.dotpath"')
+B("C12", "url.dotpath label inverted", NET, '    return b"/".join(dotless), "url.dotpath" if len(dotless) < len(segments) else ""', '    return b"/".join(dotless), "url.dotpath" if len(dotless) == len(segments) else ""', "R4-labels")
+N("C12", "MixedCase test as two inequalities", NET, "if url_text[0 : len(url.scheme)] not in (url.scheme, url.scheme.upper())", "if url_text[0 : len(url.scheme)] != url.scheme and url_text[0 : len(url.scheme)] != url.scheme.upper()")
+N("C15", "StrReverse value through bytes(reversed(...))", D + "vba.py", 'lambda s: (s[-2:0:-1], "vba.reverse")', 'lambda s: (bytes(reversed(s[1:-1])), "vba.reverse")')
+B("C15", "StrReverse value is the reversed literal with its quotes", D + "vba.py", 'lambda s: (s[-2:0:-1], "vba.reverse")', 'lambda s: (bytes(reversed(s)), "vba.reverse")', "R1-evaluation")
